@@ -4,7 +4,7 @@ from __future__ import annotations
 from .. import decoders, render, sym
 from ..decoders import classify, fmt_atoms, EVENTS
 from ..model import AnalysisError, Repo
-from ..report import Run
+from ..report import Run, take_over
 from ..sym import T, const
 
 EXPLANATION = (
@@ -209,6 +209,10 @@ def analyse(D, e, run: Run) -> bool:
 
 
 def check(repo: Repo, run: Run) -> None:
+    take_over(run, "c05", "C05", repo, lambda o: o["rule"] == "R3", "R0", "no state kept between results",
+              "what a decoder, a rendering helper or the dispatcher leaves in a module-level object (its own or the standard library's, "
+              "such as errno.errorcode) is there for the next call: the result part then depends on what was decoded before, "
+              "not on the END record alone", 0)
     from .c09 import window_obligations
     window_obligations(repo, run, ("K3", "K4"),
                        "the decoder's events[-1] is then not (only) the END record of the call being rendered")
